@@ -273,16 +273,27 @@ def run(tier, seed):
             value, unit_name, aliases = TABLE[cname]
             table_q = unyt_quantity(value, unit_name)
             princ = ns.get(cname)
-            guises = [("plain", ""), ("mks", "_mks")] + ([("cgs", "_cgs")] if representable_in_cgs(const_unit[cname]) else [])
+            has_cgs = representable_in_cgs(const_unit[cname])
+            guises = [("plain", ""), ("mks", "_mks"), ("cgs", "_cgs")]
             for n in list(aliases) + [cname]:
                 for g, suf in guises + ([("hmks", None), ("hcgs", None)] if n == "h" else []):
                     k = (n + suf) if suf is not None else g
+                    if g in ("cgs", "hcgs") and not has_cgs:
+                        # not representable in CGS: the entry must be absent — and if something is
+                        # there nevertheless it must at least be the same quantity
+                        if k in ns:
+                            chk.fail(f"unrepresentable|{cname}|{g}",
+                                     f"{sid}: {k} = {ns[k]!r} exists although {cname} ({unit_name}) has no CGS representation"
+                                     + ("" if same(ns[k], table_q) else " — and it is a different quantity"),
+                                     {"python": snippet(f"ns = space({sid!r})\nassert {k!r} not in ns, ns[{k!r}]\n")})
+                            want_keys.add(k)
+                        continue
                     want_keys.add(k)
                     chk.case((sid, k), {"namespace": sid, "name": k, "value": repr(ns.get(k))} if len(chk.samples) < 9 and k.endswith("cgs") else None)
                     chk.count(f"guise:{g}")
                     chk.count(f"space:{kind}")
                     if k not in ns:
-                        chk.fail(f"missing|{kind}|{cname}|{g}", f"namespace {sid} has no entry {k!r} (constant {cname}, guise {g})",
+                        chk.fail(f"missing|{cname}|{g}", f"namespace {sid} has no entry {k!r} (constant {cname}, guise {g})",
                                  {"python": snippet(f"ns = space({sid!r})\nassert {k!r} in ns\n")})
                         continue
                     q = ns[k]
